@@ -1,7 +1,7 @@
 #!/usr/bin/env python3
 """Shared machinery of /verif: TLC runs, scenario export, harness runs, trace
 validation, known findings, evidence files."""
-import json, os, re, shutil, subprocess, sys, time, glob, hashlib
+import atexit, json, os, re, shutil, subprocess, sys, time, glob, hashlib
 
 ROOT = os.path.dirname(os.path.dirname(os.path.abspath(__file__)))
 SPEC = os.path.join(ROOT, 'spec')
@@ -53,7 +53,9 @@ def build_harness(race=False, tags='verif', cmd='vrun'):
     os.makedirs(OUT, exist_ok=True)
     env = dict(os.environ, **GOENV)
     suffix = '' if repo == '/repo' else '_' + hashlib.sha1(repo.encode()).hexdigest()[:8]
-    out = os.path.join(OUT, cmd + ('_race' if race else '') + suffix)
+    # one binary per check process (several checks may run at the same time); removed when the process exits
+    out = os.path.join(OUT, '%s%s%s.%d' % (cmd, '_race' if race else '', suffix, os.getpid()))
+    atexit.register(lambda p=out: os.path.exists(p) and os.remove(p))
     args = ['go', 'build', '-tags', tags]
     if repo == '/repo':
         shutil.copyfile('/repo/go.sum', os.path.join(HARNESS, 'go.sum'))
